@@ -209,7 +209,11 @@ func (hbServer) Heartbeat(_ context.Context, in *hydrapb.HeartbeatRequest) (*hyd
 	return &hydrapb.HeartbeatResponse{Pong: in.GetPing()}, nil
 }
 
-type pki struct{ caPath, cliCrt, cliKey string; srvCert tls.Certificate; pool *x509.CertPool }
+type pki struct {
+	caPath, cliCrt, cliKey string
+	srvCert                tls.Certificate
+	pool                   *x509.CertPool
+}
 
 func writePEM(path, typ string, der []byte) {
 	f, err := os.OpenFile(path, os.O_CREATE|os.O_TRUNC|os.O_WRONLY, 0o600)
